@@ -244,9 +244,12 @@ fn remove_indent<C: Content>(indent: usize, src: &[C::Underlying]) -> Vec<C::Und
   let new_line = get_new_line::<C>();
   let lines: Vec<_> = src
     .split(|b| *b == new_line)
-    .map(|line| match line.strip_prefix(&*indentation) {
-      Some(stripped) => stripped,
-      None => line,
+    .enumerate()
+    .map(|(i, line)| match line.strip_prefix(&*indentation) {
+      // the first line starts at the extracted node, not at its line's indentation:
+      // leading spaces there are content
+      Some(stripped) if i > 0 => stripped,
+      _ => line,
     })
     .collect();
   lines.join(&new_line).to_vec()
